@@ -259,7 +259,11 @@ class Driver:
             except sa_exc.InvalidRequestError as e:
                 return "%s raised InvalidRequestError (%s); spec: ok" % (act["x"], str(e)[:120])
             if new is self.nodes[p]:
-                return "generative method %s returned the statement it was called on" % act["x"]
+                # allowed only for a call that changes nothing (set_label_style() with the style already set returns self): the
+                # derivation with and without the call must then mean the same on every dialect
+                for d in self.dialects:
+                    if self.fresh(self.descr[p] + (act["x"],), d) != self.fresh(self.descr[p], d):
+                        return "generative method %s returned the statement it was called on although it changes the SQL on %s" % (act["x"], d)
             self.nodes.append(new)
             self.descr.append(self.descr[p] + (act["x"],))
             self.pickled.append(self.pickled[p])
